@@ -1,7 +1,7 @@
 (* C01 — Durations and start times compose: sum in sequence, max in parallel.
    Only statements; every proof is a lemma of Proofs/. *)
 From Coq Require Import ZArith List.
-From MV Require Import Base.Res Model.EventTree Proofs.TreeLemmas Proofs.Lookup.
+From MV Require Import Base.Res Model.EventTree Model.TreeOps Proofs.TreeLemmas Proofs.Lookup Proofs.History.
 Import ListNotations.
 Open Scope Z_scope.
 
@@ -67,6 +67,20 @@ Theorem C01_lookup_denotation : forall cs t, wfs cs ->
                 | None => None end.
 Proof. exact at_seq_index. Qed.
 Print Assumptions C01_lookup_denotation.
+
+(* ... "and this stays true after any sequence of edits": every edit of the model (the time-axis operations, also on nested
+   children, and the assignment of a leaf duration) keeps the tree well formed, so every state reached by a history of
+   edits satisfies the theorems above; spelled out for the lookup *)
+Theorem C01_history_preserves_wellformedness : forall e eds e', wf e -> reaches e eds e' -> wf e'.
+Proof. exact history_preserves_wf. Qed.
+Print Assumptions C01_history_preserves_wellformedness.
+
+Theorem C01_lookup_after_any_history : forall e eds m cs t i, wf e -> reaches e eds (Seq m cs) ->
+  (index_at cs t = Some i <->
+   exists c, nth_error cs i = Some c /\ dsum (firstn i cs) <= t < dsum (firstn i cs) + dur c).
+Proof. exact history_lookup. Qed.
+Print Assumptions C01_lookup_after_any_history.
+Print edit. Print apply_edit. Print edit_ok. Print reaches.
 
 (* non-vacuity: a nested list with zero-length children *)
 Example C01_example :
